@@ -550,6 +550,9 @@ func (g *G) GenSet() []*Mod {
 			m.Rpcs = append(m.Rpcs, &Rpc{Name: g.id("rpc"), Input: []*Node{g.leaf(sc, true, g.id("in"))}, Output: []*Node{g.leaf(sc, true, g.id("out"))}})
 			m.Rpcs[0].Input[0].Config = ""
 			m.Rpcs[0].Output[0].Config = ""
+			if g.Chance(1, 3, "rpcstatus") {
+				m.Rpcs[0].Status = []string{"deprecated", "obsolete"}[g.Pick(2, "rpcstatusv")]
+			}
 			if !cfg.NoFeatures && len(m.Features) > 0 && g.Chance(1, 2, "rpcfeature") {
 				m.Rpcs[0].IfFeatures = []string{m.Features[g.Pick(len(m.Features), "rpcfeat")].Name}
 			}
@@ -557,6 +560,9 @@ func (g *G) GenSet() []*Mod {
 		if !cfg.NoRpcs && g.Chance(1, 5, "notif") {
 			m.Notifs = append(m.Notifs, &Notif{Name: g.id("ntf"), Kids: []*Node{g.leaf(sc, true, g.id("ev"))}})
 			m.Notifs[0].Kids[0].Config = ""
+			if g.Chance(1, 3, "notifstatus") {
+				m.Notifs[0].Status = []string{"deprecated", "obsolete"}[g.Pick(2, "notifstatusv")]
+			}
 			if !cfg.NoFeatures && len(m.Features) > 0 && g.Chance(1, 2, "notiffeature") {
 				m.Notifs[0].IfFeatures = []string{m.Features[g.Pick(len(m.Features), "notiffeat")].Name}
 			}
